@@ -38,7 +38,7 @@ func init() {
 		modes: func(tier string, seed int64) []modeSpec {
 			a, b, cN, d := 6000, 1600, 1200, 480
 			if tier == "thorough" {
-				a, b, cN, d = 120000, 30000, 30000, 8000
+				a, b, cN, d = 240000, 60000, 60000, 16000
 			}
 			chaos := []string{"VERIF_HOOK=chaos", "VERIF_HOOK_PROB=35", "VERIF_HOOK_MAXUS=40"}
 			ms := []modeSpec{
